@@ -381,3 +381,88 @@ def run_fp(tier, seed, group):
             break
     r["assumptions"] = list(r.get("assumptions", [])) + ["formats tried: " + ", ".join(tried)]
     return r
+
+
+# ------------------------------------------------------------------------------------------ __init__ conversion
+def run_init(tier, seed):
+    """PeriodicCallback.__init__ translated from its current source (Real/Int mode; a timedelta is its integer
+    microsecond count u): for ALL integers u >= 1
+       I1  callback_time (ms) * 1000 == u exactly (no floor, no truncation of sub-millisecond periods), and > 0
+       I2  composed with the translated _update_next from a grid point n = t: n' - n == u / 10^6 s exactly
+       I3  no ZeroDivisionError / no raise on this path
+    and for the float form: callback_time > 0 is stored unchanged, the raise is unreachable (I4)."""
+    import datetime
+    PC, fn = _fn()
+    run = _Run(120000)
+    try:
+        ki = pyk.translate(PC.__init__, pyk.RealMode(), {}, dict(callback=("opaque",), callback_time=("td",), jitter=0))
+        kf = pyk.translate(PC.__init__, pyk.RealMode(), {}, dict(callback=("opaque",), callback_time=("float",), jitter=0))
+        ku = pyk.translate(fn, pyk.RealMode(), FIELDS, ARGS)
+    except pyk.Unsupported as e:
+        return dict(status="ERROR", message="translator: unsupported construct: %s" % e)
+    for k_ in (ki, kf):
+        if "callback_time" not in k_.fields_out or k_.fields_out["callback_time"].kind not in ("float", "int"):
+            return dict(status="ERROR", message="__init__ does not store a numeric callback_time on this path")
+    u = ki.inputs["callback_time"]
+    out = ki.fields_out["callback_time"]
+    ct = z3.ToReal(out.term) if out.kind == "int" else out.term
+    # ---- translator validation on concrete inputs: the real __init__ vs the encoding
+    rnd = random.Random(seed + 391)
+    nval = 0
+    for i in range(220):
+        uu = rnd.choice([rnd.randint(1, 999), rnd.randint(1, 5000000), 1000 * rnd.randint(1, 5000),
+                         125 * rnd.randint(1, 40000), 15625, 1500])
+        real = PC(lambda: None, datetime.timedelta(microseconds=uu)).callback_time
+        enc = pyk.eval_real(ki, ct, {"callback_time": uu})
+        # the real value must be the correctly rounded double of the exact ratio computed by the encoding
+        if float(enc) != real:
+            run.errors.append("translator validation (__init__): u=%d real %r != float(encoding) %r" % (uu, real, float(enc)))
+            break
+        nval += 1
+
+    def replay_u(m):
+        uu = int(pyk.model_float(m, u))
+        try:
+            pc = PC(lambda: None, datetime.timedelta(microseconds=uu))
+            real = pc.callback_time
+            bad = abs(Fraction(real) * 1000 - uu) * (1 << 50) > uu
+            detail = "real __init__ gave callback_time=%r ms for %d us" % (real, uu)
+            if not bad and real > 0:
+                pc._next_timeout = 1000
+                pc._update_next(1000)
+                bad = abs(Fraction(pc._next_timeout) - 1000 - Fraction(uu, 10 ** 6)) > Fraction(1, 10 ** 9)
+                detail += "; first deadline start+%r s" % (pc._next_timeout - 1000)
+        except Exception as e:
+            bad, detail = True, "real code raised %r for %d us" % (e, uu)
+        return bad, dict(timedelta_microseconds=uu), detail
+
+    H = u >= 1
+    run.prove("I1 callback_time*1000 == u (exact period kept)", ki, H, z3.And(ct * 1000 == z3.ToReal(u), ct > 0), replay_u)
+    # composition with _update_next from a grid point
+    n, t, cti = ku.inputs["self._next_timeout"], ku.inputs["current_time"], ku.inputs["self.callback_time"]
+    n2 = ku.fields_out["_next_timeout"].term
+    comp_h = z3.And(H, cti == ct, n == t, ku.side_conj())
+    run.prove("I2 first deadline from a grid point == start + u/10^6 s", ki, comp_h,
+              n2 - n == z3.ToReal(u) / 1000000, replay_u)
+    for lab, pc_, c in ki.safety:
+        run.prove("I3 td path: " + lab, ki, z3.And(H, pc_), c, replay_u)
+    for lab, pc_, c in ku.safety:
+        run.prove("I3 composed _update_next: " + lab, ki, z3.And(comp_h, pc_), c, replay_u)
+    f_in = kf.inputs["callback_time"]
+
+    def replay_f(m):
+        v = float(pyk.model_float(m, f_in))
+        try:
+            real = PC(lambda: None, v).callback_time
+            return real != v, dict(callback_time=v), "real __init__ stored %r" % real
+        except Exception as e:
+            return v > 0, dict(callback_time=v), "real __init__ raised %r" % (e,)
+
+    run.prove("I4 float form stored unchanged", kf, f_in > 0, kf.fields_out["callback_time"].term == f_in, replay_f)
+    for lab, pc_, c in kf.safety:
+        run.prove("I4 float form: " + lab, kf, z3.And(f_in > 0, pc_), c, replay_f)
+    return run.result(TRUSTED, [
+        "timedelta modelled as its integer microsecond count; timedelta / timedelta is the exact ratio (CPython rounds "
+        "it once to binary64: checked on the validation inputs and by harness h_init on a pool of periods)",
+        "translator validated on %d concrete timedelta inputs against the real __init__" % nval],
+        extra=dict(source_sha=ki.source_sha, validated_inputs=nval))
